@@ -96,3 +96,34 @@ def trace_validate(res, n_traces, n_calls, what='random-histories'):
         res.cov['trace_validation'][what]['corrupted_trace_rejected_at_event'] = r2[0][1] if r2 else None
         if not ok:
             raise common.MachineryError('trace validation accepted a corrupted trace (or rejected it at the wrong event): %r, corrupted event %d' % (r2, k))
+
+
+def repo_tests_validate(res, test_file='tests/test_events.py'):
+    """Pipeline B on the repository's own tests: the tests run unmodified under an observing pytest plugin; every
+    test's use of an EventDispatcher becomes a trace validated by TLC against DispatcherTrace.tla."""
+    import json
+    import os
+    import subprocess
+    from .. import tracecheck, replay as _rp
+    if _rp.REPLAY is not None:
+        return
+    out = os.path.join(res.scratch, 'repo_tests.json')
+    env = dict(os.environ, VERIF_TRACE_OUT=out, PYTHONPATH=common.VERIF + os.pathsep + os.environ.get('PYTHONPATH', ''))
+    p = subprocess.run(['/venv/bin/python', '-m', 'pytest', '-q', '-p', 'no:cacheprovider', '-p', 'harness.pytest_recorder', test_file],
+                       cwd=common.REPO, env=env, stdout=subprocess.PIPE, stderr=subprocess.STDOUT, text=True, timeout=600)
+    if not os.path.exists(out):
+        raise common.MachineryError('recording the repository tests failed:\n' + p.stdout[-2000:])
+    recs = json.load(open(out))
+    usable = [r for r in recs if not r['unsupported'] and r['events']]
+    # (TLC's JSON module has no null: pass only what the trace specification reads)
+    rej = tracecheck.validate(res, 'DispatcherTrace', 'repo-tests', [{'header': r['header'], 'events': r['events']} for r in usable],
+                              TRACE_CONSTS, invariants=TRACE_INV, shards=1)
+    res.traces += len(usable) - len(rej)
+    res.cov.setdefault('trace_validation', {})['repository-tests'] = {
+        'test_file': test_file, 'pytest_tail': p.stdout.strip().split('\n')[-1],
+        'tests_recorded': [r['test'] for r in usable], 'accepted': len(usable) - len(rej),
+        'unsupported': {r['test']: r['unsupported'] for r in recs if r['unsupported']}}
+    for idx, at in rej:
+        t = usable[idx] if idx >= 0 else None
+        res.violation('execution of repository test %s not explained by Dispatcher.tla (matched %s events)' % (t and t['test'], at),
+                      {'trace': t, 'matched_events': at})
